@@ -15,7 +15,8 @@ The model mirrors the NumPy-backend execution of
   residual at every evaluation plus the final one, first two dropped).
 
 It is generic over a LAW-FREE operations class `NumOps K`.  Instances: `Float`, `CFloat` (here,
-executable) and the one induced by `RCLike 𝕜` (in `Lemmas/CGBridge.lean`, exact arithmetic).
+executable) and `rcOps 𝕜`, the one induced by `RCLike 𝕜` (in `Lemmas/CGBridge.lean`, exact
+arithmetic).
 
 Layout: an `n × m` array of the code is an `Array` of `m` columns, each an `Array K` of length `n`
 (every operation of the loop body is column-wise: `norm(axis=-2)`, `sum(axis=-2)`, element-wise
@@ -154,8 +155,8 @@ def Info.tick (i : Info K) (e : K) : Info K :=
   { iterations := i.iterations + 1, errors := i.errors.push e }
 
 /-- `while_loop(newcond, body_fun, init_val)` of `while_loop_winfo`, with fuel.  The fuel is
-`max_iters`; `whileWinfo_fuel` (Lemmas/CGLoop.lean) shows it is never exhausted while the
-condition holds. -/
+`max_iters`; `run_exit_cond` (Lemmas/CGLoop.lean) shows the condition is false at exit, i.e. the
+fuel is never what stops the loop. -/
 def whileWinfo {σ : Type} (trackFn : σ → K) (condFn : σ → Bool) (body : σ → σ) :
     Nat → σ → Info K → σ × Info K
   | 0, s, info => (s, info.tick (trackFn s))
@@ -216,7 +217,7 @@ def cg (A : Mat K) (rhs : Array (Vec K)) (x0 : Option (Array (Vec K))) (P : Opti
   runBatchedCG A rhs x0' maxIters tol P
 
 /-- the states at which the stopping test is evaluated (for the per-step trace of the driver;
-`whileWinfo_states` ties it to `whileWinfo`) -/
+`loopStates_eq` / `whileWinfo_spec` / `C12_trace` tie it to `whileWinfo`) -/
 def loopStates {σ : Type} (condFn : σ → Bool) (body : σ → σ) : Nat → σ → List σ
   | 0, s => [s]
   | fuel + 1, s => if condFn s then s :: loopStates condFn body fuel (body s) else [s]
